@@ -8,8 +8,9 @@
 From Coq Require Import ZArith List Bool Permutation.
 From Batchie Require Import Lib.Sexp Model.Encode Model.Screen Model.Retro Model.Pairwise Model.RetroInit
   Proofs.C11Lib Proofs.C11Select Proofs.C11Holdout Proofs.C13Filter Proofs.C13Optimal Proofs.C13Size
-  Proofs.C13NPlate Proofs.C13SampleSeg Proofs.C13Shapes Proofs.C13MergeLib Proofs.C13TopBottom
-  Proofs.C13MergeMin Proofs.C13MergeShapes Proofs.C11Init Proofs.C13Sparse Proofs.C13Pairwise.
+  Proofs.C13NPlate Proofs.C13SampleSeg Proofs.C13SampleSegEven Proofs.C13Shapes Proofs.C13MergeLib Proofs.C13TopBottom
+  Proofs.C13MergeMin Proofs.C13MergeShapes Proofs.C11Init Proofs.C13Sparse Proofs.C13Pairwise
+  Proofs.C13SparseTerm Proofs.C13PairwiseSingles.
 Import ListNotations.
 
 (* ---- sample-segregating generator ---- *)
@@ -22,6 +23,18 @@ Theorem C13_sample_segregating_shape : forall mx rows ds out ds',
      (Z.of_nat (length (filter (in_plate p) (unobserved out))) <= mx)%Z).
 Proof. exact sample_segregating_shape. Qed.
 Print Assumptions C13_sample_segregating_shape.
+
+(* "split across multiple equal sized plates": the generated plates of one sample are the chunks of
+   np.array_split, so any two unobserved output plates holding experiments of the same sample differ in size by at
+   most one (r1, r2 range over all unobserved output rows of one sample; the sizes are those of their plates) *)
+Theorem C13_sample_segregating_even : forall mx rows ds out ds',
+  generate_plates (GSampleSeg true mx) rows ds = Ok (out, ds') ->
+  ss_contract mx (unobserved rows) (sample_names (unobserved rows)) ds ->
+  forall r1 r2, In r1 (unobserved out) -> In r2 (unobserved out) -> r_sample r1 = r_sample r2 ->
+    length (filter (in_plate (r_plate r1)) (unobserved out))
+    <= length (filter (in_plate (r_plate r2)) (unobserved out)) + 1.
+Proof. exact sample_segregating_even. Qed.
+Print Assumptions C13_sample_segregating_even.
 
 Definition w_row (s : Z) (p : name) (o : Z) : row :=
   {| r_sample := [s]; r_plate := p; r_treats := [([97], 1); ([98], 2)]%Z; r_obs := o; r_mask := false |}.
@@ -54,6 +67,18 @@ Theorem C13_pairwise_single_sample : forall ctrl subset anchor rows ds out ds',
 Proof. exact pairwise_single_sample_w. Qed.
 Print Assumptions C13_pairwise_single_sample.
 
+(* [C13_pairwise_single_sample] is about the whole output (combination rows and single-agent rows alike).  Where the
+   single-agent rows go, explicitly: every unobserved output row r - single-agent or not - sits on a plate
+   generated_plate_k that holds a combination row c (no control entry) of r's own sample; so a single-agent
+   experiment never opens a plate of its own and never lands on a plate of another sample *)
+Theorem C13_pairwise_singles_join_combo_plates : forall ctrl subset anchor rows ds out ds',
+  generate_plates (GPairwise ctrl subset anchor) rows ds = Ok (out, ds') ->
+  forall r, In r (unobserved out) ->
+    exists c k, In c (unobserved out) /\ is_combo ctrl c = true /\
+                r_plate c = r_plate r /\ r_sample c = r_sample r /\ r_plate r = gen_name k.
+Proof. exact pairwise_joins_combo_w. Qed.
+Print Assumptions C13_pairwise_singles_join_combo_plates.
+
 (* ---- sparse-cover initial plate ---- *)
 (* every sample and every treatment id (None = control) of the screen occurs in an observed row; observed
    rows are labelled initial_plate and all the others carry one and the same label; nothing else changes *)
@@ -65,6 +90,53 @@ Theorem C13_sparse_cover_covers : forall ctrl reveal rows ds out ds',
   map core out = map core rows.
 Proof. exact sparse_cover_covers. Qed.
 Print Assumptions C13_sparse_cover_covers.
+
+(* termination of the greedy cover.  [ndistinct l] = number of distinct treatment ids in l (None = the control
+   sentinel counts as one id); [sc_remaining ctrl rows chosen] = np.setdiff1d(screen.treatment_ids, covered);
+   [sc_offer_loop] / [sc_offer_sample] = the arrays handed to rng.choice.
+   State by state: while ids remain the array offered by the while loop is not empty, whichever element rng.choice
+   answers the number of distinct remaining ids strictly drops, and the per-sample arrays are not empty *)
+Theorem C13_sparse_cover_loop_progress : forall ctrl rows chosen,
+  (sc_remaining ctrl rows chosen <> [] -> sc_offer_loop ctrl rows chosen <> []) /\
+  (forall i, In i (sc_offer_loop ctrl rows chosen) ->
+     ndistinct (sc_remaining ctrl rows (chosen ++ [i])) < ndistinct (sc_remaining ctrl rows chosen)) /\
+  (forall s, In s (sample_names rows) -> sc_offer_sample ctrl rows s chosen <> []).
+Proof. exact sc_loop_progress. Qed.
+Print Assumptions C13_sparse_cover_loop_progress.
+
+(* whenever it returns: one answer per sample (used1), then at most as many while-loop iterations (used2, one answer
+   each) as there are distinct treatment ids not covered by the per-sample phase, which are at most the distinct
+   ids of the screen; the unused answers ds' are handed back *)
+Theorem C13_sparse_cover_iterations : forall ctrl reveal rows ds out ds',
+  sparse_cover ctrl reveal rows ds = Ok (out, ds') ->
+  exists chosen1 used1 used2,
+    ds = used1 ++ used2 ++ ds' /\
+    sc_samples ctrl rows (sample_names rows) [] ds = Ok (chosen1, used2 ++ ds') /\
+    length used1 = length (sample_names rows) /\
+    length used2 <= ndistinct (sc_remaining ctrl rows chosen1) /\
+    ndistinct (sc_remaining ctrl rows chosen1) <= ndistinct (all_tids ctrl rows).
+Proof. exact sparse_cover_iterations. Qed.
+Print Assumptions C13_sparse_cover_iterations.
+
+(* for every fully observed screen (the empty one included) and every answer stream that obeys numpy's choice
+   contract answer by answer ([sc_contract]: each answer asked for is one element of the array offered then) and
+   holds #samples + #distinct treatment ids answers, the function returns: it never runs out of answers, never
+   offers an empty array, and the final Screen(...) is accepted *)
+Theorem C13_sparse_cover_terminates : forall ctrl reveal rows ds,
+  forallb r_mask rows = true ->
+  sc_contract ctrl rows (sample_names rows) [] ds ->
+  length (sample_names rows) + ndistinct (all_tids ctrl rows) <= length ds ->
+  exists out ds', sparse_cover ctrl reveal rows ds = Ok (out, ds').
+Proof. exact sparse_cover_terminates. Qed.
+Print Assumptions C13_sparse_cover_terminates.
+
+(* ... having consumed between #samples and #samples + #distinct treatment ids answers *)
+Theorem C13_sparse_cover_consumes : forall ctrl reveal rows ds out ds',
+  sparse_cover ctrl reveal rows ds = Ok (out, ds') ->
+  exists used, ds = used ++ ds' /\
+    length (sample_names rows) <= length used <= length (sample_names rows) + ndistinct (all_tids ctrl rows).
+Proof. exact sparse_cover_consumes. Qed.
+Print Assumptions C13_sparse_cover_consumes.
 
 (* ---- combination filter ---- *)
 Theorem C13_combo_filter_exact : forall ctrl arity rows out,
@@ -210,6 +282,20 @@ Proof. vm_compute. reflexivity. Qed.
 Example C13_sparse_cover_bad_oracle : sparse_cover [] false w_sc [DInts [2]; DInts [2]] = Err 94%Z.
 Proof. vm_compute. reflexivity. Qed.
 
+(* termination, non-vacuity: 2 samples + 4 distinct ids (a, b, c, control) = 6 answers; rows 0 and 2 for the samples
+   leave the control id uncovered, the while loop is offered [1] only, answer 1 ends it; three answers are left *)
+Definition w_sc_stream : list draw := [DInts [0]; DInts [2]; DInts [1]; DInts [7]; DInts [7]; DInts [7]].
+Example C13_sparse_cover_contract_example :
+  forallb r_mask w_sc = true /\ sc_contract [] w_sc (sample_names w_sc) [] w_sc_stream /\
+  length (sample_names w_sc) + ndistinct (all_tids [] w_sc) = length w_sc_stream.
+Proof. vm_compute. tauto. Qed.
+Example C13_sparse_cover_terminates_example :
+  option_map (fun r => (map r_mask (fst r), snd r))
+    (match sparse_cover [] false w_sc w_sc_stream with Ok r => Some r | Err _ => None end)
+  = Some ([true; true; true], [DInts [7]; DInts [7]; DInts [7]]) /\
+  sc_offer_loop [] w_sc [0; 2] = [1] /\ ndistinct (sc_remaining [] w_sc [0; 2]) = 1.
+Proof. vm_compute. auto. Qed.
+
 (* the repaired logic on the same witnesses *)
 Example C13_sample_segregating_fixed_witness :
   option_map (fun r => map r_plate (fst r))
@@ -225,3 +311,25 @@ Proof. vm_compute. reflexivity. Qed.
 Example C13_ss_contract_example :
   ss_contract 2 w_ss (sample_names w_ss) [DInts [4; 2; 3]].
 Proof. vm_compute. split; [|exact I]. apply (Permutation_cons_app [2; 3] [] 4). apply Permutation_refl. Qed.
+(* ... and the split itself: max 2, sample A (2 rows) keeps one plate, sample B (3 rows) is split 2 + 1 *)
+Example C13_sample_segregating_even_example :
+  option_map (fun r => map r_plate (fst r))
+    (match generate_plates (GSampleSeg true 2) w_ss [DInts [4; 2; 3]] with Ok r => Some r | Err _ => None end)
+  = Some [gen_name 0; gen_name 0; gen_name 1; gen_name 2; gen_name 1].
+Proof. vm_compute. reflexivity. Qed.
+(* pairwise with single-agent rows: samples A, B, each with one combination a+b and one single a; subset 1, no anchors;
+   permutation answer [1; 0], empty control choice, singles assigned to the plate of their sample *)
+Definition w_pw_row (s : Z) (single : bool) (o : Z) : row :=
+  {| r_sample := [s]; r_plate := [112]%Z;
+     r_treats := if single then [([97], 1); ([], 0)]%Z else [([97], 1); ([98], 1)]%Z; r_obs := o; r_mask := false |}.
+Definition w_pw : list row := [w_pw_row 65 false 1; w_pw_row 65 true 2; w_pw_row 66 false 3; w_pw_row 66 true 4]%Z.
+Example C13_pairwise_singles_example :
+  option_map (fun r => (map r_sample (fst r), map r_plate (fst r), map (is_combo []) (fst r)))
+    (match generate_plates (GPairwise [] 1 0) w_pw
+             [DInts [1; 0]; DInts []; DNames [gen_name 0]; DNames [gen_name 1]] with Ok r => Some r | Err _ => None end)
+  = Some ([[65]; [66]; [65]; [66]]%Z, [gen_name 0; gen_name 1; gen_name 0; gen_name 1], [true; true; false; false]).
+Proof. vm_compute. reflexivity. Qed.
+(* an assignment answer outside the plates of the sample (numpy's choice cannot give one) is refused *)
+Example C13_pairwise_singles_bad_oracle :
+  generate_plates (GPairwise [] 1 0) w_pw [DInts [1; 0]; DInts []; DNames [gen_name 1]; DNames [gen_name 1]] = Err 94%Z.
+Proof. vm_compute. reflexivity. Qed.
